@@ -14,6 +14,7 @@ import (
 	"sync"
 
 	"golang.org/x/tools/go/ssa"
+	"golang.org/x/tools/go/ssa/ssautil"
 )
 
 func (ld *Loaded) lemmaFuncs(prop string) []*ssa.Function {
@@ -142,6 +143,61 @@ func (r *Run) checkLemmas(ld *Loaded, prop string) {
 		r.add(o)
 		if o.Status != "discharged" {
 			bad = append(bad, o)
+		}
+	}
+	r.reportFailures(ld, bad, nil)
+}
+
+// checkStdlibModel: the engine represents math/bits.OnesCount8/16 by a
+// population-count term; this obligation proves that model equal to the real
+// function (its source executed symbolically: a table lookup) for all inputs.
+func (r *Run) checkStdlibModel(ld *Loaded, name string, width int) {
+	var fn *ssa.Function
+	for f := range ssautil.AllFunctions(ld.prog) {
+		if f.Pkg != nil && fullName(f) == name {
+			fn = f
+		}
+	}
+	o := &OblResult{Name: "model[" + name + "]", Layer: "P"}
+	if fn == nil || fn.Blocks == nil {
+		o.Status, o.Note = "undecided", "source of "+name+" not available"
+		r.add(o)
+		r.Undecided = append(r.Undecided, o.Note)
+		return
+	}
+	var vc *VC
+	func() {
+		defer func() {
+			if rec := recover(); rec != nil {
+				if u, ok := rec.(Unsupported); ok {
+					r.engineErr = append(r.engineErr, "UNSUPPORTED "+u.Msg+" (model of "+name+")")
+					return
+				}
+				panic(rec)
+			}
+		}()
+		x := NewExec(ld)
+		b := x.b
+		st := &State{h: Heap{}}
+		arg := b.Var("x", BV(width))
+		model, _ := x.stub(fn, []Value{arg}, st, b.True())
+		x.realStdlib = map[string]bool{name: true}
+		x.inInit = true // the function may read package-level constants of its own package
+		real, _ := x.stub(fn, []Value{arg}, st, b.True())
+		x.inInit = false
+		q := &Query{Hyps: x.hyps, Goals: []NamedTerm{{"model-equals-real-body", b.Eq(model.(*Term), real.(*Term))}}}
+		q.Goals = append(q.Goals, x.obligs...)
+		vc = &VC{Name: o.Name, Layer: "P", Query: q, B: b, Exec: x, Replay: &ReplaySpec{Kind: "none"}}
+	}()
+	if vc == nil {
+		return
+	}
+	res := r.discharge([]*VC{vc})
+	r.add(res...)
+	var bad []*OblResult
+	for _, x := range res {
+		if x.Status != "discharged" {
+			bad = append(bad, x)
 		}
 	}
 	r.reportFailures(ld, bad, nil)
